@@ -951,6 +951,31 @@ int main(void)
 			putchar(' ');
 			snap_dump("ho", m_handoff, sizeof(struct tuples_key), sizeof(struct routing_handoff_entry));
 			printf(" now=%llu\n", (unsigned long long)shim_ktime_ns);
+		} else if (!strcmp(toks[0], "rel") && n == 5) {
+			/* the control plane releases a UDP pair (endpoint teardown): dump first (the Go side runs the real
+			 * UdpEndpoint.Close -> ReleaseUdpConnStateTuples on it), then both directions leave conn_state_map */
+			struct tuples_key k, r;
+
+			memset(&k, 0, sizeof(k));
+			if (unhex(toks[1], (unsigned char *)&k.sip, 16) || unhex(toks[3], (unsigned char *)&k.dip, 16)) {
+				puts("bad-op");
+				continue;
+			}
+			k.sport = bpf_htons((uint16_t)strtoul(toks[2], NULL, 10));
+			k.dport = bpf_htons((uint16_t)strtoul(toks[4], NULL, 10));
+			k.l4proto = IPPROTO_UDP;
+			memset(&r, 0, sizeof(r));
+			r.sip = k.dip;
+			r.dip = k.sip;
+			r.sport = k.dport;
+			r.dport = k.sport;
+			r.l4proto = IPPROTO_UDP;
+			snap_dump("conn", m_conn, sizeof(struct tuples_key), sizeof(struct conn_state));
+			putchar(' ');
+			snap_dump("ho", m_handoff, sizeof(struct tuples_key), sizeof(struct routing_handoff_entry));
+			printf(" now=%llu\n", (unsigned long long)shim_ktime_ns);
+			shim_map_delete(m_conn, &k);
+			shim_map_delete(m_conn, &r);
 		} else if (!strcmp(toks[0], "const") && n == 2) {
 			size_t i;
 			int found = 0;
